@@ -9,6 +9,7 @@ import (
 	"github.com/cloudwego/frugal/zverif/explore"
 	"github.com/cloudwego/frugal/zverif/harness"
 	"github.com/cloudwego/frugal/zverif/hooks"
+	"github.com/cloudwego/frugal/zverif/ref"
 	"github.com/cloudwego/frugal/zverif/universe"
 )
 
@@ -153,6 +154,7 @@ func init() {
 			return []*harness.Phase{
 				{Name: "known-nesting", Rule: "cyclic words x depths, nest under known fields of R; distinct by (word, verdict profile)", Body: func(c *explore.C) { c15Body(c, tier, false) }},
 				{Name: "wide-shallow", Rule: "messages 2-6 levels deep whose containers hold N in {1,2,100,1021..1025,2100,5000} strings / structs / lists / map entries, known and unknown position: all must be accepted (well inside 48 levels), whatever their width", Body: func(c *explore.C) { c15Wide(c, tier) }},
+				{Name: "wide-deep", Rule: "a recursive record with 24 variable-size fields before its link to the next level, nested 1..46 levels with all / none / every third field present: at most 48 levels, must be accepted and decoded correctly however wide each level is", Body: func(c *explore.C) { c15WideDeep(c, tier) }},
 				{Name: "unknown-nesting", Rule: "cyclic words x depths 1..200, the nest placed under an unknown field id (skipped by the dependency's skipper, bound 64)", Body: func(c *explore.C) { c15Body(c, tier, true) }},
 			}
 		},
@@ -320,4 +322,37 @@ func c15Wide(c *explore.C, tier universe.Tier) {
 		}
 	}
 	harness.Cur.Outcome(harness.Hash64([]byte{byte(shape), byte(n), byte(n >> 8), byte(depth)}, []byte(fmt.Sprint(unknown))), fmt.Sprintf("shape%d", shape))
+}
+
+func c15WideDeep(c *explore.C, tier universe.Tier) {
+	depth := 1 + c.Choose(46, explore.Data, "levels")
+	fill := c.Choose(3, explore.Data, "fields-present")
+	harness.Cur.Crumb(c.Choices())
+	hooks.Reset()
+	s := universe.RWideSpec()
+	var build func(level int) *ref.Val
+	build = func(level int) *ref.Val {
+		v := ref.ZeroStruct(s)
+		for i, f := range s.Fields {
+			if f.Type.Kind == ref.KStruct {
+				if level < depth {
+					v.F[i] = build(level + 1)
+				}
+				continue
+			}
+			if fill == 0 || fill == 2 && i%3 == 0 {
+				v.F[i] = universe.Nth(f.Type, level+i)
+			}
+		}
+		return v
+	}
+	v := build(1)
+	msg := ref.Encode(s, v)
+	dv := decodeAndCompare(s, msg, decodeOpts{})
+	if dv.Class != "" {
+		c.Fail(fmt.Sprintf("a message %d levels deep (<= 48) with wide records is not decoded correctly: %s", depth+1, dv.Msg),
+			&harness.Case{Property: "C15", Class: "shallow-rejected", Type: "universe.RWide (recursive, 26 fields)", Detail: map[string]interface{}{"levels": depth + 1, "fields_present": fill, "verdict": dv.detail(), "message_bytes": len(msg)}})
+		return
+	}
+	harness.Cur.Outcome(harness.Hash64([]byte{byte(depth), byte(fill)}), fmt.Sprintf("fill%d", fill))
 }
